@@ -278,7 +278,7 @@ def crash_task(task, wdir, res):
 
 def run(run):
     quick = run.tier == "quick"
-    n = 32 if quick else 300
+    n = 32 if quick else 200
     run.parallel(rounds_task, [{"name": f"r{i}", "seed": run.rng("rounds", i).getrandbits(40)} for i in range(n)])
     nd = 3 if quick else 40
     run.parallel(crash_dry_task, [{"name": f"d{i}", "seed": run.rng("crash", i).getrandbits(40)} for i in range(nd)])
